@@ -16,6 +16,8 @@ use crate::universe::*;
 
 #[derive(Clone, Debug)]
 pub struct AsyncPlan {
+    /// per-package hint override (bit n = package n answers All), takes precedence over `hint`
+    pub hint_mask: Option<u64>,
     pub mask: u8,
     pub pairs: bool,
     pub hint: Option<Hint>,
@@ -35,6 +37,7 @@ fn async_cfg(plan: &AsyncPlan, prefix: &[u32]) -> RunCfg {
             pairs: plan.pairs,
         },
         hint_override: plan.hint.clone(),
+        hint_mask: plan.hint_mask,
         log: true,
         ..RunCfg::default()
     }
